@@ -19,7 +19,8 @@
                              towards the peer, Disconnection Complete queued to its own host
      RefuseRequest(d,c)      the request is not executed (command failed / transport gone)
      PeerTerm(d,c)           the peer's controller learns of the termination
-     TransportLoss(d)        Host.on_transport_lost(): the HCI transport of d is gone; nothing
+     TransportLoss(d)        the HCI transport of d is gone: its source (transport BaseSource
+                             .on_transport_lost) tells the host, Host.on_transport_lost(); nothing
                              queued in either direction is delivered any more; fan-out for
                              every connection of d, pending HCI command released
      Call / OpSend / ProcStep / RegDrop / Complete
@@ -28,12 +29,33 @@
                              HCI command) of `Steps` messages; it creates per-connection
                              registry state (subscriber, pending indication, SMP session,
                              channel, queued data) at either end while it runs
+     Fail(o)                 the procedure ENDS IN FAILURE while the link is up (pairing rejected /
+                             confirm value failed, connection refused, ATT / SDP error response):
+                             the waiter ends with an error, whatever registry state the procedure
+                             created (the failed SMP session, the channel the failed request ran
+                             on) stays until somebody removes it
      Release(o)              a waiter that the fan-out cancelled resumes and ends with an error
      Timeout(o)              a protocol time-out ends a waiter with an error (DESIGN App. D)
      Quiesce                 nothing is in flight and nothing can move any more
 
    Disconnect and TransportLoss are enabled at every message boundary (between any two
-   ProcStep), on either side.
+   ProcStep), on either side, before and after a procedure has ended (with a result or in failure).
+
+   Incarnations.  A closed link may be established again (MaxEst) and the controller re-uses the
+   connection handle, so "connection c" alone does not say which connection is meant.  Every
+   establishment of c is a new incarnation g = 1, 2, ...; the Connection Complete event carries it,
+   inc[d][c] is the incarnation the host / device layer of d holds, an operation belongs to the
+   incarnation it was called on and a registry entry is a pair <<c, g>>.  "No registry names a
+   closed connection" therefore also covers an entry that survived the teardown of incarnation 1
+   and now sits under the handle of incarnation 2.  Registries are keyed by the handle in the code
+   (smp.Manager.sessions, ChannelManager.channels ...): such a left-over *captures* the traffic of
+   the new incarnation (Captured), the procedure on the new connection cannot advance, and the
+   liveness-at-quiescence clause LiveCompletes fails: an operation may be found waiting at
+   quiescence only if its link is not up end to end (peer silent); on a link that is up at both ends
+   the same kind of procedure that failed or was cut on the old incarnation completes.
+
+   Roles.  Central(c) is the stack that initiated link c (A for both).  The design is symmetric in the
+   role: procedures are called at either end, registry state is created at either end.
 
    Bugs is empty in the design that is checked.  The named deviations are what the code was
    seen (or could be changed) to do; the driver's self-test turns each on and requires TLC to
@@ -44,6 +66,13 @@
      "no_release"         fan-out does not cancel the waiters                  -> WaitersEnded
      "late_readd"         a released waiter re-creates its registry entry      -> RegClean
      "no_peer_event"      the peer's controller drops the link silently        -> LayersAgree
+     "failed_keeps_regs"  the fan-out skips the registry entries of a procedure that ended in
+                          failure (it detached itself from the connection)     -> RegClean, and on
+                          the next incarnation RegAlways / LiveCompletes
+     "central_keeps_regs" the fan-out clears registries only where the stack is the peripheral
+                                                                               -> RegClean
+     "loss_not_forwarded" the transport source does not tell the host that the transport is gone
+                          (no fan-out at all)                                  -> LayersAgree, WaitersEnded
 *)
 EXTENDS Naturals, FiniteSets, Sequences, TLC
 
@@ -64,9 +93,10 @@ NoReg == "none"
 
 VARIABLES
     live,      \* [Layers -> [Devs -> SUBSET Conns]]   connection tables
-    reg,       \* [Devs -> [Regs -> SUBSET Conns]]     per-connection registries
-    ops,       \* [OpIds -> [st, dev, conn, reg, step, out]]
-    evq,       \* [Devs -> Seq(<<kind, c>>)]           HCI events in flight controller -> host (FIFO)
+    inc,       \* [Devs -> [Conns -> 0..MaxEst]]       incarnation of c held by host / device of d (0: none)
+    reg,       \* [Devs -> [Regs -> SUBSET (Conns \X 1..MaxEst)]]   per-connection registries: entries <<c, g>>
+    ops,       \* [OpIds -> [st, dev, conn, gen, reg, step, out]]
+    evq,       \* [Devs -> Seq(<<kind, c, g>>)]        HCI events in flight controller -> host (FIFO)
     term,      \* [Devs -> SUBSET Conns]               link terminations in flight to d's controller
     want,      \* [Devs -> SUBSET Conns]               disconnect requested by d, not yet executed
     lost,      \* SUBSET Devs                          stacks whose HCI transport is gone
@@ -74,12 +104,15 @@ VARIABLES
     ncut,
     quiesced
 
-vars == <<live, reg, ops, evq, term, want, lost, nest, ncut, quiesced>>
+vars == <<live, inc, reg, ops, evq, term, want, lost, nest, ncut, quiesced>>
 
-IdleOp == [st |-> "idle", dev |-> "A", conn |-> 0, reg |-> NoReg, step |-> 0, out |-> "none"]
+IdleOp == [st |-> "idle", dev |-> "A", conn |-> 0, gen |-> 0, reg |-> NoReg, step |-> 0, out |-> "none"]
+Central(c) == "A"
+Entries == Conns \X (1..MaxEst)
 
 Init ==
     /\ live = [l \in Layers |-> [d \in Devs |-> {}]]
+    /\ inc  = [d \in Devs |-> [c \in Conns |-> 0]]
     /\ reg  = [d \in Devs |-> [r \in Regs |-> {}]]
     /\ ops  = [o \in OpIds |-> IdleOp]
     /\ evq  = [d \in Devs |-> <<>>]
@@ -92,11 +125,13 @@ Init ==
 
 TypeOK ==
     /\ live \in [Layers -> [Devs -> SUBSET Conns]]
-    /\ reg \in [Devs -> [Regs -> SUBSET Conns]]
+    /\ inc \in [Devs -> [Conns -> 0..MaxEst]]
+    /\ reg \in [Devs -> [Regs -> SUBSET Entries]]
     /\ \A o \in OpIds : /\ ops[o].st \in {"idle", "waiting", "released", "done"}
                         /\ ops[o].dev \in Devs
                         /\ ops[o].out \in {"none", "result", "error"}
                         /\ ops[o].step \in 0..Steps
+                        /\ ops[o].gen \in 0..MaxEst
     /\ lost \subseteq Devs
     /\ \A d \in Devs : term[d] \subseteq Conns /\ want[d] \subseteq Conns
     /\ quiesced \in BOOLEAN
@@ -110,8 +145,17 @@ Enq(q, d, e) == IF d \in lost THEN q ELSE [q EXCEPT ![d] = Append(@, e)]
 FanTables(d, cs, keepHost) ==
     [live EXCEPT !["device"][d] = @ \ cs,
                  !["host"][d] = IF keepHost THEN @ ELSE @ \ cs]
+FanInc(d, cs, keepHost) ==
+    IF keepHost THEN inc ELSE [inc EXCEPT ![d] = [c \in Conns |-> IF c \in cs THEN 0 ELSE @[c]]]
+
+\* deviations: registry entries the fan-out on d passes over
+FailedEntry(r, e) == \E o \in OpIds : /\ ops[o].st = "done" /\ ops[o].out = "error"
+                                      /\ ops[o].reg = r /\ ops[o].conn = e[1] /\ ops[o].gen = e[2]
+Skipped(d, r, e) == \/ "failed_keeps_regs" \in Bugs /\ FailedEntry(r, e)
+                    \/ "central_keeps_regs" \in Bugs /\ d = Central(e[1])
 FanRegs(d, cs, keep) ==
-    IF keep THEN reg ELSE [reg EXCEPT ![d] = [r \in Regs |-> @[r] \ cs]]
+    IF keep THEN reg
+    ELSE [reg EXCEPT ![d] = [r \in Regs |-> {e \in @[r] : e[1] \notin cs \/ Skipped(d, r, e)}]]
 FanOps(d, cs, all) ==
     IF "no_release" \in Bugs THEN ops
     ELSE [o \in OpIds |->
@@ -120,6 +164,11 @@ FanOps(d, cs, all) ==
 
 LinkUp(c) == \A e \in Ends(c) : /\ c \in live["ctrl"][e] /\ c \notin term[e]
                                 /\ e \notin lost /\ c \in live["device"][e]
+\* incarnation g of link c is up end to end
+LinkUpG(c, g) == /\ c \in Conns
+                 /\ LinkUp(c)
+                 /\ g = nest[c]
+                 /\ \A e \in Ends(c) : inc[e][c] = g
 
 -----------------------------------------------------------------------------
 (* connection establishment *)
@@ -128,10 +177,10 @@ CtrlEstablish(c) ==
     /\ nest[c] < MaxEst
     /\ \A e \in Ends(c) : c \notin live["ctrl"][e] /\ c \notin term[e]
     /\ live' = [live EXCEPT !["ctrl"] = [d \in Devs |-> IF d \in Ends(c) THEN @[d] \cup {c} ELSE @[d]]]
-    /\ evq' = [d \in Devs |-> IF d \in Ends(c) /\ d \notin lost THEN Append(evq[d], <<"conn", c>>) ELSE evq[d]]
+    /\ evq' = [d \in Devs |-> IF d \in Ends(c) /\ d \notin lost THEN Append(evq[d], <<"conn", c, nest[c] + 1>>) ELSE evq[d]]
     /\ nest' = [nest EXCEPT ![c] = @ + 1]
     /\ quiesced' = FALSE
-    /\ UNCHANGED <<reg, ops, term, want, lost, ncut>>
+    /\ UNCHANGED <<inc, reg, ops, term, want, lost, ncut>>
 
 HostEvt(d) ==
     /\ d \notin lost
@@ -139,8 +188,10 @@ HostEvt(d) ==
     /\ LET e == Head(evq[d]) c == e[2] IN
          IF e[1] = "conn"
          THEN /\ live' = [live EXCEPT !["host"][d] = @ \cup {c}, !["device"][d] = @ \cup {c}]
+              /\ inc' = [inc EXCEPT ![d][c] = e[3]]
               /\ UNCHANGED <<reg, ops>>
          ELSE /\ live' = FanTables(d, {c}, FALSE)
+              /\ inc' = FanInc(d, {c}, FALSE)
               /\ reg' = FanRegs(d, {c}, "disc_keeps_regs" \in Bugs)
               /\ ops' = FanOps(d, {c}, FALSE)
     /\ evq' = [evq EXCEPT ![d] = Tail(@)]
@@ -159,7 +210,7 @@ RequestDisconnect(d, c) ==
     /\ want' = [want EXCEPT ![d] = @ \cup {c}]
     /\ ncut' = ncut + 1
     /\ quiesced' = FALSE
-    /\ UNCHANGED <<live, reg, ops, evq, term, lost, nest>>
+    /\ UNCHANGED <<live, inc, reg, ops, evq, term, lost, nest>>
 
 Disconnect(d, c) ==
     /\ c \in want[d]
@@ -167,34 +218,39 @@ Disconnect(d, c) ==
     /\ want' = [want EXCEPT ![d] = @ \ {c}]
     /\ live' = [live EXCEPT !["ctrl"][d] = @ \ {c}]
     /\ term' = [term EXCEPT ![PeerOf(d, c)] = @ \cup {c}]
-    /\ evq' = Enq(evq, d, <<"disc", c>>)
+    /\ evq' = Enq(evq, d, <<"disc", c, 0>>)
     /\ quiesced' = FALSE
-    /\ UNCHANGED <<reg, ops, lost, nest, ncut>>
+    /\ UNCHANGED <<inc, reg, ops, lost, nest, ncut>>
 
 RefuseRequest(d, c) ==
     /\ c \in want[d]
     /\ want' = [want EXCEPT ![d] = @ \ {c}]
     /\ quiesced' = FALSE
-    /\ UNCHANGED <<live, reg, ops, evq, term, lost, nest, ncut>>
+    /\ UNCHANGED <<live, inc, reg, ops, evq, term, lost, nest, ncut>>
 
 PeerTerm(d, c) ==
     /\ c \in term[d]
     /\ term' = [term EXCEPT ![d] = @ \ {c}]
     /\ IF c \in live["ctrl"][d]
        THEN /\ live' = [live EXCEPT !["ctrl"][d] = @ \ {c}]
-            /\ evq' = IF "no_peer_event" \in Bugs THEN evq ELSE Enq(evq, d, <<"disc", c>>)
+            /\ evq' = IF "no_peer_event" \in Bugs THEN evq ELSE Enq(evq, d, <<"disc", c, 0>>)
        ELSE UNCHANGED <<live, evq>>
     /\ quiesced' = FALSE
-    /\ UNCHANGED <<reg, ops, want, lost, nest, ncut>>
+    /\ UNCHANGED <<inc, reg, ops, want, lost, nest, ncut>>
 
+\* the transport of d dies: the source (bumble.transport BaseSource.on_transport_lost) tells the host,
+\* Host.on_transport_lost() is the fan-out for every connection
 TransportLoss(d) ==
     /\ ncut < MaxCuts
     /\ d \notin lost
     /\ lost' = lost \cup {d}
-    /\ LET cs == live["device"][d] \cup live["host"][d] IN
-         /\ live' = FanTables(d, cs, "flush_keeps_host" \in Bugs)
-         /\ reg' = FanRegs(d, Conns, "flush_keeps_regs" \in Bugs)
-         /\ ops' = FanOps(d, cs, TRUE)
+    /\ IF "loss_not_forwarded" \in Bugs
+       THEN UNCHANGED <<live, inc, reg, ops>>
+       ELSE LET cs == live["device"][d] \cup live["host"][d] IN
+              /\ live' = FanTables(d, cs, "flush_keeps_host" \in Bugs)
+              /\ inc' = FanInc(d, cs, "flush_keeps_host" \in Bugs)
+              /\ reg' = FanRegs(d, Conns, "flush_keeps_regs" \in Bugs)
+              /\ ops' = FanOps(d, cs, TRUE)
     /\ evq' = [evq EXCEPT ![d] = <<>>]
     /\ want' = [want EXCEPT ![d] = {}]
     /\ ncut' = ncut + 1
@@ -209,38 +265,47 @@ Call(o, d, c, r) ==
     /\ d \notin lost
     /\ c \in live["device"][d]
     /\ d \in Ends(c)
-    /\ ops' = [ops EXCEPT ![o] = [st |-> "waiting", dev |-> d, conn |-> c, reg |-> r, step |-> 0, out |-> "none"]]
+    /\ ops' = [ops EXCEPT ![o] = [st |-> "waiting", dev |-> d, conn |-> c, gen |-> inc[d][c], reg |-> r, step |-> 0, out |-> "none"]]
     /\ quiesced' = FALSE
-    /\ UNCHANGED <<live, reg, evq, term, want, lost, nest, ncut>>
+    /\ UNCHANGED <<live, inc, reg, evq, term, want, lost, nest, ncut>>
 
-\* end e of the procedure creates per-connection state (only ever for a connection it holds live)
+\* end e of the procedure creates per-connection state (only ever for the incarnation it holds live)
 OpSend(o, e) ==
     /\ ops[o].st = "waiting"
     /\ ops[o].reg # NoReg
     /\ e \in Ends(ops[o].conn)
     /\ e \notin lost
     /\ ops[o].conn \in live["device"][e]
-    /\ ops[o].conn \notin reg[e][ops[o].reg]
-    /\ reg' = [reg EXCEPT ![e][ops[o].reg] = @ \cup {ops[o].conn}]
+    /\ inc[e][ops[o].conn] = ops[o].gen
+    /\ <<ops[o].conn, ops[o].gen>> \notin reg[e][ops[o].reg]
+    /\ reg' = [reg EXCEPT ![e][ops[o].reg] = @ \cup {<<ops[o].conn, ops[o].gen>>}]
     /\ quiesced' = FALSE
-    /\ UNCHANGED <<live, ops, evq, term, want, lost, nest, ncut>>
+    /\ UNCHANGED <<live, inc, ops, evq, term, want, lost, nest, ncut>>
 
 RegDrop(o, e) ==
     /\ ops[o].st # "idle"
     /\ ops[o].reg # NoReg
     /\ e \in Ends(ops[o].conn)
-    /\ ops[o].conn \in reg[e][ops[o].reg]
-    /\ reg' = [reg EXCEPT ![e][ops[o].reg] = @ \ {ops[o].conn}]
+    /\ <<ops[o].conn, ops[o].gen>> \in reg[e][ops[o].reg]
+    /\ reg' = [reg EXCEPT ![e][ops[o].reg] = @ \ {<<ops[o].conn, ops[o].gen>>}]
     /\ quiesced' = FALSE
-    /\ UNCHANGED <<live, ops, evq, term, want, lost, nest, ncut>>
+    /\ UNCHANGED <<live, inc, ops, evq, term, want, lost, nest, ncut>>
 
-StepPossible(o) == ops[o].st = "waiting" /\ ops[o].step < Steps /\ LinkUp(ops[o].conn)
+\* the registries are keyed by the connection handle, which the controller re-uses: an entry of an
+\* older incarnation of the operation's connection (in the registry its procedure works with, at either
+\* end) is handed the messages of the new one
+Captured(o) == /\ ops[o].reg \in Regs
+               /\ \E e \in Ends(ops[o].conn) : \E x \in reg[e][ops[o].reg] :
+                      x[1] = ops[o].conn /\ x[2] # ops[o].gen
+
+StepPossible(o) == /\ ops[o].st = "waiting" /\ ops[o].step < Steps
+                   /\ LinkUpG(ops[o].conn, ops[o].gen) /\ ~Captured(o)
 
 ProcStep(o) ==
     /\ StepPossible(o)
     /\ ops' = [ops EXCEPT ![o].step = @ + 1]
     /\ quiesced' = FALSE
-    /\ UNCHANGED <<live, reg, evq, term, want, lost, nest, ncut>>
+    /\ UNCHANGED <<live, inc, reg, evq, term, want, lost, nest, ncut>>
 
 \* the only way an operation ends
 Ret(o, out) ==
@@ -253,21 +318,32 @@ Complete(o) ==
     /\ CompletePossible(o)
     /\ Ret(o, "result")
     /\ quiesced' = FALSE
-    /\ UNCHANGED <<live, reg, evq, term, want, lost, nest, ncut>>
+    /\ UNCHANGED <<live, inc, reg, evq, term, want, lost, nest, ncut>>
+
+\* the peer answers with a refusal / an error response / Pairing Failed, or the local check of what it
+\* sent fails: at least one message was exchanged, the link is up, the waiter ends with an error.
+\* What the procedure created in the registries is untouched (RegDrop may or may not follow).
+Fail(o) ==
+    /\ ops[o].st = "waiting"
+    /\ ops[o].step >= 1
+    /\ LinkUpG(ops[o].conn, ops[o].gen)
+    /\ Ret(o, "error")
+    /\ quiesced' = FALSE
+    /\ UNCHANGED <<live, inc, reg, evq, term, want, lost, nest, ncut>>
 
 Release(o) ==
     /\ ops[o].st = "released"
     /\ Ret(o, "error")
     /\ reg' = IF "late_readd" \in Bugs /\ ops[o].reg # NoReg
-              THEN [reg EXCEPT ![ops[o].dev][ops[o].reg] = @ \cup {ops[o].conn}] ELSE reg
+              THEN [reg EXCEPT ![ops[o].dev][ops[o].reg] = @ \cup {<<ops[o].conn, ops[o].gen>>}] ELSE reg
     /\ quiesced' = FALSE
-    /\ UNCHANGED <<live, evq, term, want, lost, nest, ncut>>
+    /\ UNCHANGED <<live, inc, evq, term, want, lost, nest, ncut>>
 
 Timeout(o) ==
     /\ ops[o].st = "waiting"
     /\ Ret(o, "error")
     /\ quiesced' = FALSE
-    /\ UNCHANGED <<live, reg, evq, term, want, lost, nest, ncut>>
+    /\ UNCHANGED <<live, inc, reg, evq, term, want, lost, nest, ncut>>
 
 -----------------------------------------------------------------------------
 (* quiescence *)
@@ -283,7 +359,7 @@ Quiesce ==
     /\ Propagated
     /\ OpsSettled
     /\ quiesced' = TRUE
-    /\ UNCHANGED <<live, reg, ops, evq, term, want, lost, nest, ncut>>
+    /\ UNCHANGED <<live, inc, reg, ops, evq, term, want, lost, nest, ncut>>
 
 Next ==
     \/ \E c \in Conns : CtrlEstablish(c)
@@ -292,7 +368,7 @@ Next ==
                                    \/ RefuseRequest(d, c) \/ PeerTerm(d, c)
     \/ \E o \in OpIds, d \in Devs, c \in Conns, r \in Regs \cup {NoReg} : Call(o, d, c, r)
     \/ \E o \in OpIds, e \in Devs : OpSend(o, e) \/ RegDrop(o, e)
-    \/ \E o \in OpIds : ProcStep(o) \/ Complete(o) \/ Release(o) \/ Timeout(o)
+    \/ \E o \in OpIds : ProcStep(o) \/ Complete(o) \/ Fail(o) \/ Release(o) \/ Timeout(o)
     \/ Quiesce
 
 Spec == Init /\ [][Next]_vars
@@ -306,13 +382,19 @@ TableOk(d, layer, S) ==
       [] layer = "host"   -> S = live["host"][d]
       [] layer = "device" -> S = live["device"][d]
 
-RegOk(d, S) == S \subseteq live["device"][d]
+\* a registry may only name the incarnation of a connection that the device layer holds
+EntryOk(d, x) == x[1] \in live["device"][d] /\ x[2] = inc[d][x[1]]
+RegOk(d, S) == \A x \in S : EntryOk(d, x)
 
-\* an operation may still be waiting at quiescence only on a connection that is still live on
-\* its own stack (its peer is silent); never on a closed connection or a lost transport
+\* an operation may still be waiting at quiescence only on the incarnation of a connection that is
+\* still live on its own stack (its peer is silent); never on a closed connection or a lost transport
 PendingOk(o) == /\ ops[o].st = "waiting"
                 /\ ops[o].dev \notin lost
                 /\ ops[o].conn \in live["device"][ops[o].dev]
+                /\ inc[ops[o].dev][ops[o].conn] = ops[o].gen
+
+\* ... and not on a link that is up end to end: there the peer answers and the procedure completes
+Stalled(o) == ops[o].st = "waiting" /\ LinkUpG(ops[o].conn, ops[o].gen)
 
 LayersAgree ==
     quiesced =>
@@ -326,14 +408,19 @@ RegClean == quiesced => \A d \in Devs, r \in Regs : RegOk(d, reg[d][r])
 
 WaitersEnded == quiesced => \A o \in OpIds : ops[o].st \in {"idle", "done"} \/ PendingOk(o)
 
+\* liveness at quiescence: whatever happened to earlier incarnations (procedure failed, link cut in the
+\* middle of it), a procedure on a link that is up end to end is not found waiting when nothing moves
+LiveCompletes == quiesced => \A o \in OpIds : ~Stalled(o)
+
 \* every waiter ended with an exception / cancellation, or with a result obtained from a complete exchange
 Outcomes == \A o \in OpIds : /\ (ops[o].st = "done") <=> (ops[o].out # "none")
                              /\ ops[o].out = "result" => ops[o].step = Steps
 
-\* holds at every instant, not only at quiescence: registries never name a connection the
+\* holds at every instant, not only at quiescence: registries never name a connection (incarnation) the
 \* device layer does not hold, the device and host tables change together
 RegAlways    == \A d \in Devs, r \in Regs : RegOk(d, reg[d][r])
-TablesAlways == \A d \in Devs : live["device"][d] = live["host"][d]
+TablesAlways == \A d \in Devs : /\ live["device"][d] = live["host"][d]
+                                /\ \A c \in Conns : (inc[d][c] # 0) <=> (c \in live["device"][d])
 
 \* a waiter ends exactly once
 EndsOnce == [][\A o \in OpIds : ops[o].st = "done" => ops'[o] = ops[o]]_vars
